@@ -22,6 +22,7 @@ Helper lemmas: Uquic/Proofs/InitialCompose*.lean.
 import Uquic.Props.C10
 import Uquic.Props.C09More
 import Uquic.Proofs.InitialComposeMarshal
+import Uquic.Proofs.InitialComposePop
 
 namespace Uquic.Props.C10Compose
 open Uquic.Spec.Framing Uquic.Spec.FramingMon Uquic.Model.UQuic.Frames
@@ -70,6 +71,22 @@ theorem share_is_cryptoLength (spec : Initial.Spec) (hdrLenOf : Nat → Nat) (ma
       (Initial.planOf spec i).cryptoLength := by omega
   simp only [flightShares, h']
   rw [if_neg (by omega)]
+
+/-- C09 side of the shares: on C09's model of the CRYPTO stream (plain: uQUIC disables ClientHello
+    scrambling when a spec dictates the framing) holding the ClientHello, the packer's loop — datagram `i`
+    calls `PopCryptoFrame` with the budget `cryptoBudget − header` C10 computes at the current offset —
+    releases exactly one CRYPTO frame `(base offset, CH[base, base+share))` per share of
+    `firstFlightShares`, in order. These are the frames `flightPayloads` hands to the builder. -/
+theorem popped_frames_are_shares (spec : Initial.Spec) (s : Nat → Nat) (tokOff maxSize : Nat) (CH : List UInt8) :
+    flightPops spec (fun i => (Initial.hdrOf spec s tokOff i).len) maxSize CH.length 0 0
+        ((Uquic.Model.UQuic.Scrambler.write Uquic.Model.UQuic.Scrambler.newBase CH ⟨0, 0, 0, 0⟩).1) =
+      (firstFlightShares spec s tokOff maxSize CH.length).map (frameOfShare CH) := by
+  have := flightPops_eq_shares spec (fun i => (Initial.hdrOf spec s tokOff i).len) maxSize CH CH.length 0 0
+    ((Uquic.Model.UQuic.Scrambler.write Uquic.Model.UQuic.Scrambler.newBase CH ⟨0, 0, 0, 0⟩).1) (Nat.zero_le _)
+    (by simp [Uquic.Model.UQuic.Scrambler.write, Uquic.Model.UQuic.Scrambler.newBase])
+    (by simp [Uquic.Model.UQuic.Scrambler.write, Uquic.Model.UQuic.Scrambler.newBase])
+    (by simp [Uquic.Model.UQuic.Scrambler.write, Uquic.Model.UQuic.Scrambler.newBase])
+  simpa [firstFlightShares] using this
 
 /-- **The first Initial flight carries the ClientHello.** For every spec whose frame builder is one of
     the per-datagram builders proved in C09 (nil / empty QUICFrames pass-through, a QUICFrames layout,
@@ -175,6 +192,11 @@ example : carries demoCH 0 [[6, 0, 3, 1, 0, 0], [6, 3, 3, 4, 10, 11], [6, 6, 2, 
   (initial_flight_carries_clienthello demoSpec _ rfl demoCH (fun _ => 0) 0 1280
     (fun i => (⟨[], true⟩, if i = 1 then [0] else [0])) _ (by decide) (fun sh _ => shareFits_random _ sh)
     (by decide)).2.2.2 (by decide)
+
+/-- the frames popped from C09's stream model with C10's budgets -/
+example : flightPops demoSpec (fun i => (Initial.hdrOf demoSpec (fun _ => 0) 0 i).len) 1280 8 0 0
+    ((Uquic.Model.UQuic.Scrambler.write Uquic.Model.UQuic.Scrambler.newBase demoCH ⟨0, 0, 0, 0⟩).1) =
+    [(0, [1, 0, 0]), (3, [4, 10, 11]), (6, [12, 13])] := by decide
 
 /-- the share of datagram 0 is the `CryptoLength` of `crypto_split_offsets` -/
 example : flightShares demoSpec (fun i => (Initial.hdrOf demoSpec (fun _ => 0) 0 i).len) 1280 8 0 0 8 =
